@@ -206,6 +206,45 @@ def evaluate_once(ctx, cases, tag, per=10):
     return mm, len(shards), ok
 
 
+class ImplAbort(Exception):
+    """the implementation under test ended the process on a generated history; .violation carries the history"""
+    def __init__(self, violation):
+        Exception.__init__(self, violation.get("what"))
+        self.violation = violation
+
+
+def capture_abort(ctx, mode, jobseed, n, first_output):
+    import json
+    trace = os.path.join(ctx.work, "abort_trace_%s_%d.jsonl" % (mode, jobseed))
+    if os.path.exists(trace):
+        os.remove(trace)
+    out = os.path.join(ctx.work, "abort_%s_%d.jsonl" % (mode, jobseed))
+    rc, o = vlib.harness(["l2", "-seed", jobseed, "-count", n, "-out", out, mode], timeout=3000, env={"VERIF_TRACE": trace})
+    if rc == 0 or rc == 124 or not os.path.exists(trace):
+        return None   # not reproducible: left to the caller (machinery error)
+    case, ops = None, []
+    with open(trace) as f:
+        for line in f:
+            try:
+                x = json.loads(line)
+            except ValueError:
+                continue
+            if "case" in x and "cfg" in x:
+                case, ops = x, []
+            elif not x.get("hidden"):
+                ops.append(x)
+    if case is None:
+        return None
+    last = [ln for ln in o.splitlines() if "FATAL" in ln or "panic" in ln or "fatal error" in ln]
+    hist = os.path.join(ctx.work, "abort_history_%s_%d.json" % (mode, jobseed))
+    with open(hist, "w") as f:
+        json.dump(dict(i=case["case"], kind=mode, cfg=case["cfg"], ops=ops), f)
+    return dict(kind="implementation-abort",
+                what="the implementation ended the process during a generated %s history (harness l2 -seed %d, case %d, after %d operations): %s"
+                     % (mode, jobseed, case["case"], len(ops), (last[-1] if last else o.strip().splitlines()[-1] if o.strip() else "")[:300]),
+                case=dict(i=case["case"], seed=jobseed, mode=mode), history=hist, last_op=ops[-1] if ops else None)
+
+
 def gen_cases(ctx, mode, count, seed, procs=8):
     """run the l2 suite in several harness processes (one store per process at a time)"""
     from concurrent.futures import ThreadPoolExecutor
@@ -221,6 +260,13 @@ def gen_cases(ctx, mode, count, seed, procs=8):
     def run(j):
         p, n, out = j
         rc, o = vlib.harness(["l2", "-seed", seed * 1000 + p, "-count", n, "-out", out, mode], timeout=3000)
+        if rc != 0 and rc != 124:
+            # the implementation ended the harness process in the middle of a history (panic, logger.Fatalf): run the
+            # job again with VERIF_TRACE (every operation is logged before it runs) and report the history as the
+            # failing input
+            v = capture_abort(ctx, mode, seed * 1000 + p, n, o)
+            if v:
+                raise ImplAbort(v)
         if rc != 0:
             raise RuntimeError("harness l2 failed: " + o[-400:])
         cs = vlib.read_jsonl(out)
